@@ -1,5 +1,10 @@
 SPECIFICATION TraceSpec
-CONSTANT MaxParts = 2
+CONSTANTS
+  MaxParts = 2
+  DevTornTailFailsGet = TRUE
+  DevTimescaleZeroExits = FALSE
+  DevNilTrafBoxExits = FALSE
+  DevSampleSizeUnbounded = TRUE
 INVARIANT Verdicts
 POSTCONDITION Accepted
 CHECK_DEADLOCK FALSE
